@@ -726,3 +726,9 @@ VARIANTS += [
 """,
         "    def _wait_for_result(self, fut: concurrent.futures.Future):\n", note='capacity guard as a one-line predicate'),
 ]
+
+VARIANTS += [
+    V('C17-M20', 'M', ('C17',), QU, 'ResponsiveQueue.__getstate__', r'return self\.queue, self\.stop_requested, self\.wait_interval_seconds', 'return self.queue, self.stop_requested', ('C17-4',), note='seeded C17-r2m2 shape (with the matching __setstate__ below)'),
+    V('C17-M21', 'M', ('C17',), QU, 'ResponsiveQueue.__setstate__', r'self\.queue, self\.stop_requested, self\.wait_interval_seconds = state', 'self.queue, self.wait_interval_seconds, self.stop_requested = state', ('C17-4',), note='order disagreement'),
+    V('C17-E20', 'E', ALL, QU, 'ResponsiveQueue.__setstate__', r'self\.queue, self\.stop_requested, self\.wait_interval_seconds = state', 'self.__init__(*state)', note='re-initialisation with everything __getstate__ carries'),
+]
